@@ -158,6 +158,14 @@ def check_rel(ctx: Ctx, case):
                     ctx.fail("C08/not-weight-linear", f"{kind}: loss {full!r} != weighted sum of single-coordinate losses "
                              f"{expect!r} (weights {wl}, parts {parts})", sub, case)
                     return
+                # 3b: the loss is homogeneous in the weights (a consequence of the weighted sum): tiny weights are still weights
+                if w is not None and math.isfinite(full) and full != 0.0:
+                    c = 1e-10
+                    v = ev(dict(spec, weights=[a * c for a in wl], weights_as="float"), sim, real)
+                    if not same(v, c * full, 1e-9 * abs(c * full) + c * tol):
+                        ctx.fail("C08/not-weight-linear", f"{kind}: multiplying every weight by {c} turns the loss {full!r} into "
+                                 f"{v!r} instead of {c * full!r}", sub, case)
+                        return
                 # 4: a zero weight removes the coordinate
                 if w is not None and D >= 2 and 0.0 in w:
                     keep = [i for i in range(D) if w[i] != 0.0]
